@@ -98,7 +98,7 @@ def run(prog, rep, tier, cfg):
         X.guard('K6b', 'invariant:%s-non-negative' % fld, CB, rb, m_pred('is_negative', [], False, direct='State.' + fld), '%s negative => Err' % fld)
     X.guard('K6b', 'invariant:balance-covers-collateral', CB, rb, m_rel('lt', ['P:2'], ['F:State.pre_commit_deposits', 'F:State.locked_funds', 'F:State.initial_pledge', 'C:::add'], False),
             'balance < pre_commit_deposits + locked_funds + initial_pledge => Err')
-    for f in prog.fns.values():
+    for f in prog.bodies():
         if f.crate != MI or f.kind in ('promoted', 'const'):
             continue
         for c in f.calls:
@@ -107,6 +107,8 @@ def run(prog, rep, tier, cfg):
                 rep.need('K10', 'invariant-arg:%s' % f.id.split('::')[-1], has_atom(at, 'C:Runtime::current_balance'), 'the invariant is checked against the current balance', c.where)
                 rep.need('K8', 'invariant-propagated:%s' % f.id.split('::')[-1], result_fate(f, c) == 'try', 'a broken invariant aborts the message', c.where)
     # ---- 3. market: slash => burn ; withdraw floor (C06 owns the details)
+    import props.c08 as c08
+    c08.slash_burnt(prog, rep, X, prefix='market:')
     MK = 'fil_actor_market'
     for hn in ('Actor::on_miner_sectors_terminate', 'Actor::cron_tick', 'Actor::settle_deal_payments'):
         H = X.fn(hn, MK)
